@@ -101,7 +101,10 @@ SOURCES = ["include/etl/_utility/pair.hpp", "include/etl/_tuple", "include/etl/_
            "include/etl/_functional/reference_wrapper.hpp", "include/etl/_functional/bind_front.hpp",
            "include/etl/_functional/not_fn.hpp", "include/etl/_utility/forward.hpp", "include/etl/_utility/forward_like.hpp"]
 RULE = ("Stateless lines: (pair cmp) every pair of pairs over {0,1,2} for int elements and over {0,1,NaN} for double elements, all six "
-        "relations; (pair value ops) 23 operations (default construction, construct from lvalues/rvalues, copy, move, converting "
+        "relations; the same for pair<KP,KP>, pair<KP,int> and pair<int,KP> where KP is a key + payload class (operator< on the key "
+        "alone, operator== on key and payload, no operator<=>: std::pair synthesises the three-way comparison from <) with all KP "
+        "values from keys {0,1} x payloads {0,1}, i.e. including first / second elements that are equivalent and not equal, plus 400 "
+        "(thorough 4000) random lines of which half have equivalent firsts; (pair value ops) 23 operations (default construction, construct from lvalues/rvalues, copy, move, converting "
         "copy/move, copy/move/converting assignment, member/free/self swap, make_pair, get<I> through the four reference "
         "qualifications, get<T> through lvalue / const lvalue / rvalue, structured binding) x all 36 combinations of element kinds "
         "{int, instrumented copy+move class, move-only, copy-only, int&, int const}; (pair with reference-to-class elements) the "
@@ -112,7 +115,8 @@ RULE = ("Stateless lines: (pair cmp) every pair of pairs over {0,1,2} for int el
         "kinds, source kinds) combinations: pair<Trk,Trk> from pair<Trk&,Trk&> / pair<Trk const&,Trk const&> / pair<Trk,Trk&>, "
         "pair<Trk&,Trk&> from pair<Trk,Trk> / pair<Trk const&,..>, per-element mixed forms, pair<int,int&> from pair<int&,int>, and "
         "one non-assignable destination (n/a), plus 600 (thorough 6000) random lines over these; (tuple) equality of every pair of tuples over "
-        "{0,1,2} with arity 0..3; 31 value operations (the pair's, plus make_from_tuple, forward_as_tuple, tie, tie(...) = t, "
+        "{0,1,2} with arity 0..3, and of tuples of KP elements (arity 1, 2 over 4 values, arity 3 over 3 values: equivalent-but-unequal "
+        "elements must compare unequal); 31 value operations (the pair's, plus make_from_tuple, forward_as_tuple, tie, tie(...) = t, "
         "construction from a pair; converting constructors / assignments widen / narrow the int elements and keep the others) x 56 "
         "element-kind lists: every list of length 1 and 2 (all 36 combinations), the 6 uniform triples and 8 mixed triples in "
         "which every kind occurs at every position; apply through the four tuple categories x the four callee categories and with "
@@ -339,6 +343,25 @@ def generate(tier, seed):
         a = [rnd.randint(-5, 5), rnd.randint(-5, 5)]
         b = [rnd.choice([a[0], rnd.randint(-5, 5)]), rnd.randint(-5, 5)]
         add("pair op=cmp e=int a=%s b=%s" % (fmt_list(a), fmt_list(b)), "pair/cmp-random")
+    # ---- pair relations over key + payload elements (harness KP: value v = key v/2, payload v%2; `<` on the key, `==` on key and
+    # payload, no <=>): every pair of pairs with firsts / seconds from {0,1,2,3} (KP: keys 0,1 x payloads 0,1 - 0~1 and 2~3 are
+    # equivalent and unequal) resp. {0,1,2} (int).  A separate generator keeps the other random streams unchanged.
+    KPV = {"k": [0, 1, 2, 3], "i": [0, 1, 2]}
+    for e, (d1, d2) in (("kp", "kk"), ("kpi", "ki"), ("ikp", "ik")):
+        for a in itertools.product(KPV[d1], KPV[d2]):
+            for b in itertools.product(KPV[d1], KPV[d2]):
+                add("pair op=cmp e=%s a=%s b=%s" % (e, fmt_list(a), fmt_list(b)), "pair/cmp-kp")
+    rnd3 = random.Random("C20-pair-kp-%s" % seed)
+    for _ in range(4000 if thorough else 400):
+        e = rnd3.choice(["kp", "kpi", "ikp"])
+        a = [rnd3.randint(0, 11), rnd3.randint(0, 11)]
+        b = [rnd3.randint(0, 11), rnd3.randint(0, 11)]
+        r = rnd3.random()
+        if r < 0.5:         # equivalent firsts (same key), equal or not
+            b[0] = a[0] ^ rnd3.randint(0, 1) if e != "ikp" else a[0]
+        if r < 0.25:        # and equivalent seconds
+            b[1] = a[1] ^ rnd3.randint(0, 1) if e != "kpi" else a[1]
+        add("pair op=cmp e=%s a=%s b=%s" % (e, fmt_list(a), fmt_list(b)), "pair/cmp-kp-random")
     # ---- pair value operations: every op x every kind combination
     samples = [([1, 2], [3, 4]), ([0, 0], [2, 1]), ([2, 2], [2, 2])] + ([([5, 7], [7, 5]), ([1, 0], [0, 1])] if thorough else [])
     for op in PAIR_OPS:
@@ -380,6 +403,11 @@ def generate(tier, seed):
         for a in itertools.product(V, repeat=n):
             for b in itertools.product(V, repeat=n):
                 add("tuple op=eq a=%s b=%s" % (fmt_list(a), fmt_list(b)), "tuple/eq")
+    # the same over key + payload elements (== on key and payload): arity 1, 2 over {0,1,2,3}, arity 3 over {0,1,2}
+    for n, dom in ((1, [0, 1, 2, 3]), (2, [0, 1, 2, 3]), (3, [0, 1, 2])):
+        for a in itertools.product(dom, repeat=n):
+            for b in itertools.product(dom, repeat=n):
+                add("tuple op=eq e=kp a=%s b=%s" % (fmt_list(a), fmt_list(b)), "tuple/eq-kp")
     # ---- tuple value operations
     for op in TUPLE_OPS:
         for ks in TUPLE_KINDS:
@@ -588,8 +616,8 @@ def group_of(case):
 
 
 CLAIMED = True
-TECHNIQUE = ("Lean 4 proofs about a hand model + differential testing.  Proved without bounds: the lexicographic pair relations, tuple "
-             "equality, tuple_cat, the inplace_function vtable-thunk machine (with object lifetimes, construction / assignment from a "
+TECHNIQUE = ("Lean 4 proofs about a hand model + differential testing.  Proved without bounds: the lexicographic pair relations (through < only, for arbitrary "
+             "element < and == with nothing assumed between them), tuple equality, tuple_cat, the inplace_function vtable-thunk machine (with object lifetimes, construction / assignment from a "
              "source of any value category and of another specialisation, free swap and nullptr comparison) "
              "refining an owner semantics for all histories, and reference_wrapper / function_ref as objects (pointer members executed "
              "forwards = target resolved backwards, for all histories of construction, copy and assignment).  The forwarding wrappers "
@@ -610,9 +638,15 @@ LEVEL_TEXT = ("pair and tuple members are modelled as the member-wise expansion 
               "inplace_function as its vtable thunks (copy, relocate, destroy, invoke) acting on storage cells that hold a live "
               "callable or nothing, where reading a destroyed object or constructing over a live one is an error.  Lean 4 proves "
               "without bounds: (a) the six pair relations equal the lexicographic three-way comparison for every element order "
-              "synthesised from an asymmetric <, form a strict total order with its derived relations for strict total element "
+              "synthesised from an asymmetric < - with NO assumption that links the elements' == to their <: the model computes <, <=, "
+              ">, >= through < only, as [pairs.spec] does, and ==, != through == only; pair_rels_kp instantiates this for the key + "
+              "payload element whose == is finer than the equivalence of its <, pair_lt_via_eq_differs exhibits the input on which a "
+              "tie decided by == differs from [pairs.spec] and pair_lt_via_eq_same_of_total shows that no strictly totally ordered "
+              "element type (int) can exhibit one -, form a strict total order with its derived relations for strict total element "
               "orders, and for double elements equal std::pair's exactly on the inputs outside the NaN class of the known finding "
-              "(and differ on every input inside it); (b) tuple == never fails and is list equality for every arity including 0; (c) "
+              "(and differ on every input inside it); (b) tuple == never fails and is list equality for every arity including 0, and "
+              "for an arbitrary element == (nothing assumed) the conjunction of the element comparisons (tuple_eq_by); etl::tuple has "
+              "no <, <=, >, >= (the property claims equality only), so there is no lexicographic tuple order to model; (c) "
               "tuple_cat of any number of tuples (none included) is their concatenation and never reads out of range; (d) for every history of "
               "construct/copy/move/assign/member swap/free swap/reset/call/compare-with-nullptr on inplace_function (any length, any "
               "number of objects, including self-assignment and self-swap; construction and assignment from a source expression of "
@@ -706,11 +740,12 @@ CORRESPONDENCE_ONLY = [
 ]
 P = "Tetl.C20.Props."
 THEOREMS = {
-    "pair": [P + n for n in ("pair_rels_eq_synth3", "pair_rels_dbl_iff", "pair_rels_dbl_partial", "pair_lt_iff", "pair_trichotomy",
+    "pair": [P + n for n in ("pair_rels_eq_synth3", "pair_rels_kp", "kpLt_asymm", "pair_lt_via_eq_differs",
+                             "pair_lt_via_eq_same_of_total", "pair_rels_dbl_iff", "pair_rels_dbl_partial", "pair_lt_iff", "pair_trichotomy",
                              "pair_derived", "pair_lt_trans", "defaultAll_eq", "copyAll_eq", "moveAll_eq", "assignAll_eq",
                              "moveAssignAll_eq", "swapAll_eq", "getAll_eq", "convAssignAll_eq", "convMoveAssignAll_eq",
                              "convAssignAll_same", "convMoveAssignAll_same", "convMoveAssign_keeps_referents")],
-    "tuple": [P + n for n in ("tuple_eq_iff", "defaultAll_eq", "copyAll_eq", "moveAll_eq", "assignAll_eq", "moveAssignAll_eq",
+    "tuple": [P + n for n in ("tuple_eq_iff", "tuple_eq_by", "defaultAll_eq", "copyAll_eq", "moveAll_eq", "assignAll_eq", "moveAssignAll_eq",
                               "swapAll_eq", "getAll_eq", "makeFromTuple_eq", "apply_once", "applyMember_once", "applyMember_data")],
     "tcat": [P + "tuple_cat_eq", P + "copyAll_eq", P + "moveAll_eq"],
     "invoke": [P + "invoke_once", P + "invoke_memdata"],
